@@ -277,8 +277,12 @@ func (e *Engine) HookObserver(point, arg string) {
 	// the expiring query event is the oldest not yet expired one
 	e.H.mu.Lock()
 	var q *QEInfo
+	subject := arg
+	if i := strings.IndexByte(arg, ' '); i >= 0 {
+		subject = arg[i+1:]
+	}
 	for _, c := range e.QEs {
-		if !c.Expired && c.Subject != "" && c.RName == arg {
+		if !c.Expired && c.Subject != "" && c.Subject == subject {
 			q = c
 			break
 		}
